@@ -3,7 +3,9 @@ package main
 import (
 	"context"
 	"fmt"
+	"hash/fnv"
 	"runtime"
+	"runtime/debug"
 	"time"
 
 	"github.com/prometheus/prometheus/model/labels"
@@ -75,7 +77,20 @@ func sameCanon(a, b run.CResult) bool {
 // operation every result handed out earlier is compared with its deep snapshot; every execution
 // is compared with the execution of a freshly constructed engine on the current data.
 func famSession(sc *scn.Scenario, em func(vt.Ev)) {
-	runtime.GOMAXPROCS(sc.Procs())
+	// every other history runs on one processor: what a query puts into a sync.Pool (a per-processor cache) is
+	// then what the next query takes out of it
+	procs := sc.Procs()
+	if h := fnv.New32a(); sc.CfgInt("procs", 0) == 0 {
+		h.Write([]byte(sc.ID))
+		if h.Sum32()%2 == 0 {
+			procs = 1
+		}
+	}
+	runtime.GOMAXPROCS(procs)
+	// whatever an engine keeps in pools between two queries is dropped by the garbage collector: a history is
+	// replayed with collections made rare, so that pooled state lives from one query to the next as it does in a
+	// process that allocates less than this harness (snapshots after every operation)
+	defer debug.SetGCPercent(debug.SetGCPercent(2000))
 	em(vt.Ev{"ev": "sc", "id": sc.ID, "fam": sc.Fam, "q": "history", "start": 0, "end": 0, "step": 0, "lb": sc.LB, "qlb": 0, "tickms": sc.TickMs, "data": []any{}, "cfg": sc.Cfg})
 	var queries []string
 	for _, x := range cfgList(sc.Cfg, "queries") {
